@@ -174,6 +174,10 @@ func (l *listener4) HandleMsg4(buf []byte, oob *ipv4.ControlMessage, _peer net.A
 		}
 
 		if useEthernet {
+			if woob == nil {
+				// No interface to send the layer2 frame on (already logged above)
+				return
+			}
 			intf, err := net.InterfaceByIndex(woob.IfIndex)
 			if err != nil {
 				log.Errorf("MainHandler4: Can not get Interface for index %d %v", woob.IfIndex, err)
